@@ -176,6 +176,77 @@ fn adapter_case(case: &Value, c: &C, which: usize) -> Bad {
     None
 }
 
+
+/// The SYSTEM of spec/ProfileFollower.tla on the real objects: a CommandPID that follows a GetterFromHistory over a MotionProfile.
+/// Compared with (1) a real twin controller that is handed `History::get(profile, t)` through `set` before each update (bit for bit)
+/// and (2) the specification's prediction: presence of the output at every update, values within 2^-16 of the magnitudes involved.
+fn follower_case(beh: &Value, c: &C) -> Bad {
+    use rrtk::streams::control::CommandPID;
+    let mv = &beh["mv"];
+    let (p, twinp) = match (mk_profile(mv, c, false, false), mk_profile(mv, c, false, false)) {
+        (Ok(a), Ok(b)) => (a, b),
+        _ => return None, // constructor outcomes are C06 / C07's business
+    };
+    let p: &'static mut MotionProfile = Box::leak(Box::new(p));
+    let clock = ScriptedClock::new();
+    let half_ns = c.tick_ns() / 2;
+    let tau = half_ns as f64 / 1e9; // the specification counts time in half ticks
+    let sigma = [c.pos(&json!([1, 1])), c.vel(&json!([1, 1])), c.acc(&json!([1, 1]))];
+    let g = [(1.0, 2.0, 4.0), (2.0, 4.0, 1.0), (4.0, 1.0, 2.0)];
+    let kv = |x: (f64, f64, f64)| PIDKValues::new(x.0 as f32, (x.1 / tau) as f32, (x.2 * tau) as f32);
+    let gains = || PositionDerivativeDependentPIDKValues::new(kv(g[0]), kv(g[1]), kv(g[2]));
+    let init = Command::new(PositionDerivative::Position, (7.0 * sigma[0]) as f32);
+    let getter = GetterFromHistory::new_no_delta(p, clock.getter.clone());
+    let gref: Reference<dyn Getter<Command, E>> = to_dyn!(Getter<Command, E>, rc_ref_cell_reference(getter));
+    let input = Scripted::<State>::new();
+    let mut pid = CommandPID::new(input.getter.clone(), init, gains());
+    pid.follow(gref);
+    let tin = Scripted::<State>::new();
+    let mut twin = CommandPID::new(tin.getter.clone(), init, gains());
+    let steps = beh["steps"].as_array().unwrap();
+    for (idx, st) in steps.iter().enumerate() {
+        let h = i(st, "h");
+        let t = Time(h * half_ns);
+        let sample = State::new_raw(((2 * h - 3) as f64 * sigma[0]) as f32, ((4 - h) as f64 * sigma[1]) as f32, ((h % 3 - 1) as f64 * sigma[2]) as f32);
+        clock.set(Ok(t));
+        input.set(Ok(Some(Datum::new(t, sample))));
+        tin.set(Ok(Some(Datum::new(t, sample))));
+        let r = catch(|| pid.update());
+        if !matches!(r, Ok(Ok(()))) {
+            return Some(("follower".into(), format!("update of the following controller at half tick {h}"), json!("ok"), json!(format!("{r:?}"))));
+        }
+        if let Some(d) = History::<Command, E>::get(&twinp, t) {
+            let _ = twin.set(d.value);
+        }
+        let _ = twin.update();
+        let (a, b) = (pid.get(), twin.get());
+        let same = match (&a, &b) {
+            (Ok(Some(x)), Ok(Some(y))) => x.time == y.time && x.value.to_bits() == y.value.to_bits(),
+            (Ok(None), Ok(None)) => true,
+            _ => false,
+        };
+        if !same {
+            return Some(("follower".into(), format!("controller following the profile vs a controller handed the profile's command through set, at half tick {h}"),
+                         json!(format!("{b:?}")), json!(format!("{a:?}"))));
+        }
+        // the specification's prediction
+        let k = i(&st["cmd"], "k") as usize;
+        let exp = &st["out"];
+        match (s(exp, "c"), &a) {
+            ("none", Ok(None)) => {}
+            ("some", Ok(Some(d))) => {
+                let e = rat(&exp["v"]) * sigma[k] * tau.powi(k as i32);
+                let mag = 4.0 * e.abs() + 1e-2 * (rat(&st["cmd"]["v"]).abs() + h.abs() as f64 + 1.0) * sigma[k] * tau.powi(k as i32);
+                if d.time != t || !close(d.value, e, mag) {
+                    return Some(("follower".into(), format!("output of the following controller at half tick {h} (command kind {k})"), json!({"t_ns": t.0, "v": e}), json!({"t_ns": d.time.0, "v": d.value})));
+                }
+            }
+            _ => return Some(("follower".into(), format!("presence of the following controller's output at half tick {h} (step {idx})"), exp.clone(), json!(format!("{a:?}")))),
+        }
+    }
+    None
+}
+
 fn replay_case(case: &Value, c: &C, mode: &str, flip_limits: bool) -> Bad {
     let mv = &case["mv"];
     let end_state = State::new_raw(c.pos(&mv["xe"]) as f32, c.vel(&mv["ve"]) as f32, c.acc(&mv["ae"]) as f32);
@@ -501,6 +572,19 @@ fn main() {
             std::process::exit(2)
         });
         rep.count("behaviours", 1);
+        if mode == "follower" {
+            if case["steps"].as_array().unwrap().iter().filter(|st| st["changed"] == json!(true)).count() >= 2 {
+                rep.count("nontrivial", 1);
+            }
+            for c in concs.iter().take(3) {
+                rep.count("replays", 1);
+                if let Some((class, what, exp, got)) = follower_case(&case, c) {
+                    rep.mismatch(json!({"line": ln, "class": class, "what": what, "exp": exp, "got": got, "conc": c.json()}));
+                    break;
+                }
+            }
+            continue;
+        }
         if !case["panic"].as_bool().unwrap() {
             rep.count("nontrivial", 1);
         }
